@@ -457,16 +457,30 @@ func (c *Ctx) checkProxyRelayGate() {
 		dec := "common/messages.DecodePollResponseWithRelayURL"
 		n := 0
 		for _, r := range returnsOf(po) {
-			if isNilConst(retVal(r, 0)) {
-				continue
+			// the (offer, relay URL) pairs this return can yield: the values themselves, or, when both
+			// were merged over the same paths (temporaries of a flattened helper), one pair per path
+			type pair struct{ off, url ssa.Value }
+			pairs := []pair{{retVal(r, 0), retVal(r, 1)}}
+			if p0, ok0 := retVal(r, 0).(*ssa.Phi); ok0 {
+				if p1, ok1 := retVal(r, 1).(*ssa.Phi); ok1 && p0.Block() == p1.Block() && len(p0.Edges) == len(p1.Edges) {
+					pairs = nil
+					for i := range p0.Edges {
+						pairs = append(pairs, pair{p0.Edges[i], p1.Edges[i]})
+					}
+				}
 			}
-			n++
-			okURL := isResultOf(retVal(r, 1), 2, dec)
-			okDesc := false
-			if cc, i, okc := callResult(retVal(r, 0)); okc && i == 0 && calleeName(cc) == "common/util.DeserializeSessionDescription" {
-				okDesc = flows(cc.Call.Args[0], func(v ssa.Value) bool { return isResultOf(v, 0, dec) })
+			for _, pr := range pairs {
+				if isNilConst(pr.off) {
+					continue
+				}
+				n++
+				okURL := isResultOf(pr.url, 2, dec)
+				okDesc := false
+				if cc, i, okc := callResult(pr.off); okc && i == 0 && calleeName(cc) == "common/util.DeserializeSessionDescription" {
+					okDesc = flows(cc.Call.Args[0], func(v ssa.Value) bool { return isResultOf(v, 0, dec) })
+				}
+				c.check(okURL && okDesc, rule, "pollOffer returns the decoded offer together with the decoded relay URL", p.instrPos(r), "", "the relay URL (or the offer) returned by pollOffer is not the corresponding field of the broker's response: the URL validated by runSession is not the one the broker sent with this offer")
 			}
-			c.check(okURL && okDesc, rule, "pollOffer returns the decoded offer together with the decoded relay URL", p.instrPos(r), "", "the relay URL (or the offer) returned by pollOffer is not the corresponding field of the broker's response: the URL validated by runSession is not the one the broker sent with this offer")
 		}
 		if n == 0 {
 			c.undecided(rule, "pollOffer success return", p.Pos(po.Pos()), "none found")
